@@ -694,7 +694,15 @@ where
     non_primitive_provers: Vec<Box<dyn TableProver<SC>>>,
     /// When true, run the lookup debugger before proving to report imbalanced multisets.
     debug_lookups: bool,
+    /// Verification hook (feature `p3r-verif`): applied to the table matrices right before
+    /// `prove_batch`, so a simulated faulty prover can alter any committed cell.
+    #[cfg(feature = "p3r-verif")]
+    verif_trace_tamper: Option<VerifTraceTamper<SC>>,
 }
+
+/// Verification hook (feature `p3r-verif`): callback over the table matrices about to be committed.
+#[cfg(feature = "p3r-verif")]
+pub type VerifTraceTamper<SC> = Box<dyn Fn(&mut [RowMajorMatrix<Val<SC>>]) + Send + Sync>;
 
 /// Errors raised when proof metadata fails the structural invariants that the
 /// type constructors enforce but `#[derive(Deserialize)]` can bypass.
@@ -1111,7 +1119,18 @@ where
             alu_variant: AirVariant::Optimized,
             non_primitive_provers: Vec::new(),
             debug_lookups: false,
+            #[cfg(feature = "p3r-verif")]
+            verif_trace_tamper: None,
         }
+    }
+
+    /// Verification hook (feature `p3r-verif`): install a callback that may alter the table
+    /// matrices immediately before they are committed and proven.
+    #[cfg(feature = "p3r-verif")]
+    #[must_use]
+    pub fn with_verif_trace_tamper(mut self, tamper: VerifTraceTamper<SC>) -> Self {
+        self.verif_trace_tamper = Some(tamper);
+        self
     }
 
     /// Override the default [`TablePacking`] configuration (builder-style).
@@ -1537,6 +1556,11 @@ where
             None
         };
         let effective_prover_data = recomputed_data.as_ref().unwrap_or(prover_data);
+
+        #[cfg(feature = "p3r-verif")]
+        if let Some(tamper) = &self.verif_trace_tamper {
+            tamper(&mut trace_storage);
+        }
 
         let proof = {
             let trace_refs: Vec<&RowMajorMatrix<Val<SC>>> = trace_storage.iter().collect();
